@@ -7,12 +7,14 @@ package main
 // law 108 is evaluated on the placements decided in the session.
 
 import (
+	"flag"
 	"fmt"
 	"os"
 	"sort"
 
 	v1 "k8s.io/api/core/v1"
 	"k8s.io/apimachinery/pkg/util/sets"
+	"k8s.io/klog/v2"
 
 	"verif/harness/internal/vh"
 	schedulingv1 "volcano.sh/apis/pkg/apis/scheduling/v1beta1"
@@ -75,8 +77,19 @@ type traceOut struct {
 
 var lastTrace *traceOut
 
+func klogDebug() {
+	fs := flag.NewFlagSet("klog2", flag.ContinueOnError)
+	klog.InitFlags(fs)
+	fs.Set("logtostderr", "true")
+	fs.Set("v", "3")
+	klog.SetOutput(os.Stderr)
+}
+
 func runTrace(in []int64) []int64 {
 	lastTrace = nil
+	if os.Getenv("VERIF_C14_DEBUG") == "2" {
+		klogDebug()
+	}
 	t := decTrace(in)
 	L := int64(len(t.leaves))
 	G := int64(0)
